@@ -10,7 +10,7 @@ Ev == Traces[tid].ev
 Pre(e) == CASE e.act = "orth" -> CanOrth(st) [] e.act = "truncate" -> CanTruncate(st) [] OTHER -> TRUE
 Post(e) == CASE e.act = "orth" -> Orth(st, e.n, e.to, e.nz)
              [] e.act = "absorb" -> Absorb(st, e.to)
-             [] e.act = "diag" -> Diag(st, e.nz, e.binding)
+             [] e.act = "diag" -> Diag(st, e.nz, e.binding, e.shrinks)
              [] e.act = "canonize" -> Canonize(st, e.to, e.nz)
              [] e.act = "truncate" -> Truncate(st, e.to, e.nz, e.binding)
              [] e.act = "setsite" -> SetSite(st, e.n)
